@@ -200,23 +200,35 @@ for (const sname of Object.keys(spec.structs)) {
     if (meth) {
       const O = mods[spec.opaque];
       const fn = Object.getOwnPropertyNames(O).find(n => n.toLowerCase().replace(/_/g, "") === meth.js.toLowerCase().replace(/_/g, ""));
-      const assign = {}; const tokens = {};
-      let k = 0;
-      for (const l of ls) {
-        if (l.kind === "flag") { assign[l.path] = true; continue; }
-        k++;
-        if (l.kind === "enum") { const v = l.variants[l.variants.length - 1]; assign[l.path] = mods[l.ty][v[0]]; tokens[l.path] = v[1]; }
-        else if (l.ty === "bool") { assign[l.path] = true; tokens[l.path] = true; }
-        else if (l.ty === "u64" || l.ty === "i64") { assign[l.path] = BigInt(100 + k); tokens[l.path] = "n" + (100 + k); }
-        else if (l.ty === "f32" || l.ty === "f64") { assign[l.path] = 100.5 + k; tokens[l.path] = 100.5 + k; }
-        else { assign[l.path] = 100 + k; tokens[l.path] = 100 + k; }
-      }
-      calls.length = 0; allocs.length = 0;
-      try { O[fn](build(sname, assign, "")); } catch (e) { /* conversion of the (all-zero) return value may throw; the call is already recorded */ }
-      const c = calls.find(c => c.name === meth.symbol);
-      res.args = c ? c.args : null;
-      res.tokens = tokens;
-      res.recv = allocs.slice();
+      const tok = (a) => (typeof a === "bigint" ? "n" + a.toString() : a);
+      const runWith = (mode) => {
+        // mode: "sentinel" (distinct non-zero leaves, options present), "zero" (all leaves zero/false, options present), "absent" (options null)
+        const assign = {}; const tokens = {};
+        let k = 0;
+        for (const l of ls) {
+          if (l.kind === "flag") { if (mode !== "absent") assign[l.path] = true; continue; }
+          k++;
+          if (mode === "sentinel") {
+            if (l.kind === "enum") { const v = l.variants[l.variants.length - 1]; assign[l.path] = mods[l.ty][v[0]]; tokens[l.path] = v[1]; }
+            else if (l.ty === "bool") { assign[l.path] = true; tokens[l.path] = true; }
+            else if (l.ty === "u64" || l.ty === "i64") { assign[l.path] = BigInt(100 + k); tokens[l.path] = "n" + (100 + k); }
+            else if (l.ty === "f32" || l.ty === "f64") { assign[l.path] = 100.5 + k; tokens[l.path] = 100.5 + k; }
+            else { assign[l.path] = 100 + k; tokens[l.path] = 100 + k; }
+          } else {
+            const d = leafDefault(l);
+            assign[l.path] = d;
+            tokens[l.path] = (l.kind === "enum") ? l.variants[0][1] : tok(d);
+          }
+        }
+        calls.length = 0; allocs.length = 0;
+        try { O[fn](build(sname, assign, "")); } catch (e) { /* conversion of the (all-zero) return value may throw; the call is already recorded */ }
+        const c = calls.find(c => c.name === meth.symbol);
+        return { args: c ? c.args : null, tokens, recv: allocs.slice() };
+      };
+      const a = runWith("sentinel");
+      res.args = a.args; res.tokens = a.tokens; res.recv = a.recv;
+      res.args_zero = runWith("zero");
+      if (ls.some(l => l.kind === "flag")) res.args_absent = runWith("absent");
     }
   } catch (e) { out.errors.push(sname + " args: " + e); }
   out.structs[sname] = res;
